@@ -96,6 +96,9 @@ class ServeManifest(RequestHandlerBase):
         dash = ManifestContext(
             manifest=mft, options=options, stream=current_stream,
             multi_period=None)
+        if not dash.has_media():
+            return flask.make_response(
+                'No media is available for this stream and these options', 404)
         context = cast(ManifestTemplateContext, self.create_context(
             title=current_stream.title, mpd=dash, options=options,
             mode=mode, stream=current_stream))
@@ -161,6 +164,9 @@ class ServeMultiPeriodManifest(RequestHandlerBase):
         dash = ManifestContext(
             manifest=current_manifest, options=options, stream=None,
             multi_period=current_mps)
+        if not dash.has_media():
+            return flask.make_response(
+                'No media is available for this stream and these options', 404)
         context = cast(ManifestTemplateContext, self.create_context(
             title=current_mps.title, mpd=dash, options=options,
             mode=mode))
@@ -272,6 +278,9 @@ class ServePatch(RequestHandlerBase):
         dash = ManifestContext(
             manifest=mft, options=options, stream=current_stream,
             multi_period=None)
+        if not dash.has_media():
+            return flask.make_response(
+                'No media is available for this stream and these options', 404)
         context = cast(PatchTemplateContext, self.create_context(
             title=current_stream.title, mpd=dash, options=options,
             stream=current_stream,
